@@ -114,6 +114,33 @@ impl<'a> Case<'a> {
         };
         if let Some(w) = what {
             acc.violation(self.order, format!("{}: {}", self.head(&s), w), self.json(&s));
+            return;
+        }
+        // "no event is fabricated from partial data" also holds for the calls that follow the error: whether the
+        // reader then answers Eof for ever or reads on is not stated, but an event it returns must be an
+        // event of the fault-free run, at the same position (checked on the three fixed kinds only)
+        if matches!(kind, ErrorKind::Other | ErrorKind::UnexpectedEof) {
+            let mut more = Vec::new();
+            run_one(self.src, self.input, self.cfg, &s, false, &mut more);
+            acc.evaluations += 1;
+            acc.count("runs_continued_after_the_error", 1);
+            if let Some(k) = more.iter().position(|o| matches!(&o.ev, Ev::Err(E::Io(..)))) {
+                for o in &more[k + 1..] {
+                    let fine = match &o.ev {
+                        Ev::Eof => true,
+                        Ev::Err(E::Io(..)) => true,
+                        _ => self.reference.iter().any(|r| r.ev == o.ev && r.pos == o.pos),
+                    };
+                    if !fine {
+                        acc.violation(
+                            self.order,
+                            format!("{}: after the I/O error at refill #{} a later call returned {}, which is not an event of the fault-free run at that position (fabricated from partial data)", self.head(&s), i, show(Some(o))),
+                            self.json(&s),
+                        );
+                        break;
+                    }
+                }
+            }
         }
     }
 
@@ -232,7 +259,7 @@ pub fn run(ctx: &mut Ctx) {
          partially consumed (source offset strictly inside a construct's span, spans from the reference lexer); counted per \
          faulty run, distinct by construction",
     );
-    ctx.assume("nothing is asserted about calls made after an I/O error was returned (the property does not state it)");
+    ctx.assume("about calls made after an I/O error only this is asserted: an event they return is an event of the fault-free run at the same position (Eof for ever and reading on are both accepted)");
     let t = ctx.tier;
     let full = cfg!(feature = "full");
     let seed = ctx.seed;
